@@ -594,6 +594,8 @@ class Engine:
                 return v.caps[idx]
             if isinstance(v, (BigV, IntV)) and idx == 0:
                 return v  # newtype wrappers collapse onto their scalar
+            if isinstance(v, RefV) and fty and ('NonNull<' in fty or 'Unique<' in fty or fty.lstrip().startswith('*')):
+                return v  # pointer newtypes (Box -> Unique -> NonNull -> *const) collapse onto the reference
             h = SPECIAL_FIELD.get(type(v))
             if h:
                 return h(self, v, idx, fty)
